@@ -81,14 +81,20 @@ theorem c17_source_total (s : Src) (h : s.ReplDom) : s.srcC = some s.src := Src.
 
 /-- **streaming a tree without CachedSource cannot trap in the checked parts** (raw leaves, map-driven leaves at any depth
 under ConcatSource / ReplaceSource), any store; `streamC` runs ConcatSource with the crate's saturating column addition (fix F16),
-and `s.NoSat o` says no ConcatSource node of the tree saturates.  PARTIAL: OriginalSource's tokenizer, the combined-map lookup and
+and `s.NoSat o` says no ConcatSource node of the tree overflows or saturates.  PARTIAL: OriginalSource's tokenizer, the combined-map lookup and
 the position bookkeeping of ReplaceSource are not restated in checked form (they pass through the total model; K4 lives there). -/
 theorem c17_tree_stream_total_partial (s : Src) (o : Opts) (σ : Store) (hn : s.NoCached) (h : s.SizeOK) (hs : s.NoSat o) :
     s.streamC o σ = some (s.stream o σ) := Src.streamC_eq s o σ hn h hs
 
-/-- **the crate's ConcatSource (`saturating_add`, fix F16) is the model's ConcatSource (unbounded addition)** on children that
-report true positions (C02) and whose texts total less than 2 GiB — the bridge between the repaired code and the model every
-other theorem is about -/
+/-- **ConcatSource cannot trap and is the model's ConcatSource** on children that report true positions (C02) and whose texts
+total less than 2 GiB: the checked stream — `mapping.generated_line + current_line_offset`, `current_line_offset + 1`,
+`current_column_offset += generated_column`, `current_line_offset += generated_line - 1` as partial `u32` operations, the chunk
+column with the crate's `saturating_add` (fix F16) — succeeds and equals the unbounded model every other theorem is about -/
+theorem c17_concat_total (final : Bool) (cs : List SResult) (hp : ∀ c ∈ cs, PosOK c ∧ evsTL c.evs = false)
+    (hlen : 2 * Chk.sumText cs + 2 < 2 ^ 32) : Chk.concatStreamC final cs = some (concatStream final cs) :=
+  Chk.concatStreamC_eq_of_posOK final cs hp hlen
+
+/-- the saturating form alone (no hypothesis on lines) -/
 theorem c17_concat_saturation_free (final : Bool) (cs : List SResult) (hp : ∀ c ∈ cs, PosOK c ∧ evsTL c.evs = false)
     (hlen : 2 * Chk.sumText cs < 2 ^ 32) : Chk.concatStreamS final cs = concatStream final cs :=
   Chk.concatStreamS_eq_of_posOK final cs hp hlen
